@@ -682,6 +682,15 @@ def run_ref(ctx, env, lines, tag):
     return out, err
 
 
+def first_diff(a, b):
+    """the first differing token of two message lines, with some context"""
+    x, y = a.split(' '), b.split(' ')
+    for k in range(max(len(x), len(y))):
+        if k >= len(x) or k >= len(y) or x[k] != y[k]:
+            return 'first difference at token %d: ...%s  <>  ...%s' % (k, ' '.join(x[max(0, k - 6):k + 4])[:400], ' '.join(y[max(0, k - 6):k + 4])[:400])
+    return 'no difference'
+
+
 def viol(run, name, text):
     if len(run.violations) < 3:
         run.violation(run.replay('%s-%d.txt' % (name, len(run.violations)), text), False)
@@ -782,14 +791,14 @@ def check_C04(tier, seed, pid='C04'):
             if r_out:
                 rn = refnorm.normalise(r_out[i], env) if i < len(r_out) else '<none>'
                 if cn != rn:
-                    viol(run, 'oracle', 'protobuf-c and the reference read the same valid encoding differently\n--- schema + case\n%s%s\n--- protobuf-c\n%s\n--- libprotobuf\n%s\n'
-                         % (env.text(), l, cn[:3000], rn[:3000]))
+                    viol(run, 'oracle', 'protobuf-c and the reference read the same valid encoding differently\n%s\n--- schema + case\n%s%s\n--- protobuf-c\n%s\n--- libprotobuf\n%s\n'
+                         % (first_diff(cn, rn), env.text(), l, cn[:3000], rn[:3000]))
                 else:
                     tally['c_equals_reference'] += 1
             if not hasunk[i]:
                 if cn != refnorm.normalise(origs[i], env):
-                    viol(run, 'oracle', 'a re-encoding of a value was not read back as that value\n--- schema + case\n%s%s\n--- protobuf-c\n%s\n--- value encoded\n%s\n'
-                         % (env.text(), l, cn[:3000], origs[i][:3000]))
+                    viol(run, 'oracle', 'a re-encoding of a value was not read back as that value\n%s\n--- schema + case\n%s%s\n--- protobuf-c\n%s\n--- value encoded\n%s\n'
+                         % (first_diff(cn, refnorm.normalise(origs[i], env)), env.text(), l, cn[:3000], origs[i][:3000]))
                 else:
                     tally['equals_original'] += 1
     run.cov['reference_tie'] = tally
@@ -970,7 +979,8 @@ def alloc_check(pid, tier, seed):
             if r < 0.5:
                 bs, _o = valid_variant(rnd, env, m, split=True)
             elif r < 0.8:
-                bs = casegen.corrupt(rnd, casegen.encode(env, m, casegen.CANON))
+                base_bs = valid_variant(rnd, env, m, split=True)[0] if rnd.random() < 0.6 else casegen.encode(env, m, casegen.CANON)
+                bs = casegen.corrupt(rnd, base_bs)
             else:
                 bs = casegen.encode(env, m, casegen.CANON)
             inputs.append((d, casegen.hexs(bs)))
